@@ -457,7 +457,7 @@ def correspondence(ctx, profile, n_cases, extra_cases=()):
             replays.append((case, r, m, {"kind": "oracle-timing"}))
     # timing re-check: replay with long waits, serially (1 process) to avoid load effects
     if replays:
-        rcases = [dict(replay_options(c), id=c.get("id"), mode="replay", events=strip_events(r["events"]), seed=c.get("seed", 0),
+        rcases = [dict(replay_options(c), id=c.get("id"), mode="replay", events=script_of(r), seed=c.get("seed", 0),
                        expect=[len(x["obs"]) for x in m])
                   for c, r, m, d in replays]
         rruns = run_driver(rcases, env_extra={"M1_WAIT_LONG": "3.0"}, nproc=4)
@@ -496,6 +496,11 @@ def correspondence(ctx, profile, n_cases, extra_cases=()):
 def replay_options(case):
     """the options of a case that change what the implementation is asked to do (not how the schedule is drawn)"""
     return {k: case[k] for k in ("managed", "warn_error", "fresh_object_per_call") if k in case}
+
+
+def script_of(r):
+    """what a replay executes: the recorded events, with the markers of unlocked fetches when there were any"""
+    return strip_events(r.get("script") or r.get("events", []))
 
 
 def strip_events(events):
@@ -565,7 +570,7 @@ def standard_run(ctx, prop, profile):
         if sig in seen or len(seen) >= 4:
             continue
         seen.add(sig)
-        ctx.violation(o[1], {"kind": "oracle", "case": dict(replay_options(c), mode="replay", events=strip_events(r["events"])),
+        ctx.violation(o[1], {"kind": "oracle", "case": dict(replay_options(c), mode="replay", events=script_of(r)),
                              "property_tag": o[0]}, True, finding_key=key)
     if res["mismatches"] and not ctx.violations:
         c, r, d = res["mismatches"][0]
@@ -575,7 +580,7 @@ def standard_run(ctx, prop, profile):
             what += " ; the runs violate %s: %s" % (others[0][2][0], others[0][2][1])
         ctx.violation(what, {"kind": "correspondence", "correspondence": "Model/ParallelCore.v step vs m1_driver events",
                              "first_disagreement": d,
-                             "case": dict(replay_options(c), mode="replay", events=strip_events(r.get("events", [])))},
+                             "case": dict(replay_options(c), mode="replay", events=script_of(r))},
                       found_input=False)
     extra_cov = {}
     hook = EXTRA.get(profile)
@@ -632,21 +637,24 @@ def real_cases(rng, n, fail_rate):
     cases = []
     for i in range(n):
         backend = rng.choice(["threading", "threading", "loky", "multiprocessing", "sequential"])
-        n_jobs = 1 if backend == "sequential" else rng.choice([2, 3, 4])
+        ncpu = os.cpu_count() or 1
+        # negative n_jobs count back from the number of CPUs and never give fewer than one worker
+        n_jobs = 1 if backend == "sequential" else rng.choice([2, 3, 4, 2, 3, 4, 1 - ncpu, -ncpu - 1, -ncpu - 4])
         N = rng.choice([0, 1, 2, 5, 8, 13, 21, 40])
         c = {"backend": backend, "n_jobs": n_jobs, "batch_size": rng.choice(["auto", 1, 2, 3, 7]),
              "pre_dispatch": rng.choice(["all", "2*n_jobs", "n_jobs", 1, 3, "1.5*n_jobs"]),
              "return_as": rng.choice(["list", "list", "generator", "generator_unordered"]), "N": N,
              "tfail": [], "ifail": None, "reuse": 2, "seed": rng.randint(0, 10 ** 6), "with_block": rng.random() < 0.4,
-             "verbose": rng.choice([0, 0, 0, 1, 11, 60]), "exc": "TaskFail", "init": None}
+             "verbose": rng.choice([0, 0, 0, 1, 11, 60]), "exc": "TaskFail", "init": None, "sized": rng.random() < 0.5}
         if N and rng.random() < fail_rate:
             if rng.random() < 0.3:
                 c["ifail"] = rng.randint(0, N)
             else:
                 c["tfail"] = [rng.randint(0, N - 1)]
-                c["exc"] = rng.choice(["TaskFail", "TaskFail", "SystemExit", "KeyboardInterrupt", "BaseFail"])
+                c["exc"] = rng.choice(["TaskFail", "TaskFail", "SystemExit", "KeyboardInterrupt", "BaseFail", "UnpicklableExc", "UnpicklableRet"])
         if backend == "multiprocessing" and rng.random() < 0.6:
             c["init"] = rng.randint(1, 9)       # a backend option (pool initializer) that every call must see
+            c["n_jobs"] = c["n_jobs"] if c["n_jobs"] > 0 else 2      # (a real pool: one worker means no pool at all)
             c["with_block"] = True
         if backend == "multiprocessing":
             c["return_as"] = "list"       # MultiprocessingBackend does not support generators (documented ValueError)
@@ -679,14 +687,15 @@ def judge_real(c, r):
             continue
         if call["raised"] is None:
             vals = call["values"]
-            if c.get("init") is not None and any(len(v) > 2 and v[2] != c["init"] for v in vals):
+            unp_ret = bool(tf) and c.get("exc") == "UnpicklableRet"
+            if c.get("init") is not None and any(len(v) > 2 and v[2] != c["init"] and v[2] != "<lock>" for v in vals):
                 bad.append(("C04", "real backend %s: call %d ran in workers that lost the backend option given to Parallel "
                                    "(initializer flag %s instead of %s)" % (c["backend"], cn, sorted(set(map(str, (v[2] for v in vals)))), c["init"])))
             if any(v[0] != cn for v in vals):
                 bad.append(("C04", "real backend %s: call %d returned values of another call" % (c["backend"], cn)))
             idx = [v[1] for v in vals]
             exp = list(range(c["N"]))
-            if tf or jf is not None:
+            if (tf and not unp_ret) or jf is not None:
                 bad.append(("C04", "real backend %s: a task/input failure was swallowed, call returned %d values" % (c["backend"], len(vals))))
             elif (sorted(idx) if c["return_as"] == "generator_unordered" else idx) != exp:
                 bad.append(("C01" if c["return_as"] != "generator_unordered" else "C16",
@@ -699,17 +708,24 @@ def judge_real(c, r):
                                    "dispatched tasks (%.0f s each) instead of stopping them" % (
                                        c["backend"], " inside a with block" if c.get("with_block") else "", call["latency"], c["slow"])))
             name, args = call["raised"]
-            if tf and jf is None:
-                want = c.get("exc", "TaskFail")
+            if tf and jf is None and c.get("exc") == "UnpicklableRet":
+                # the value cannot travel back from a worker process: any error will do there, none in threads
+                if c["backend"] in ("threading", "sequential"):
+                    bad.append(("C04", "real backend %s: a task returned an unpicklable value, call raised %s%s" % (c["backend"], name, args)))
+            elif tf and jf is None and c.get("exc") == "UnpicklableExc" and (c["backend"] not in ("threading", "sequential") or name != "TaskFail"):
+                if c["backend"] in ("threading", "sequential"):
+                    bad.append(("C04", "real backend %s: expected TaskFail, got %s%s" % (c["backend"], name, args)))
+            elif tf and jf is None:
+                want = "TaskFail" if c.get("exc") == "UnpicklableExc" else c.get("exc", "TaskFail")
                 if name != want or args[:1] != ["task failed"] or args[1] not in tf:
                     bad.append(("C04", "real backend %s: expected %s('task failed', %s), got %s%s" % (c["backend"], want, tf, name, args)))
             elif jf is not None and not tf:
                 if name != "KeyError" or args[:1] != ["input failed"]:
                     bad.append(("C04", "real backend %s: expected KeyError('input failed', ..), got %s%s" % (c["backend"], name, args)))
             else:
-                tag = "C16" if c.get("abandon") else "C04"
-                bad.append((tag, "real backend %s: call %d raised %s%s although nothing failed%s" % (
-                    c["backend"], cn, name, args, " (after the generator of call 1 was abandoned: %s)" % c["abandon"] if c.get("abandon") else "")))
+                for tag in (("C16",) if c.get("abandon") else ("C04", "C01") if c["return_as"] != "generator_unordered" else ("C04", "C16")):
+                    bad.append((tag, "real backend %s: call %d raised %s%s although nothing failed%s" % (
+                        c["backend"], cn, name, args, " (after the generator of call 1 was abandoned: %s)" % c["abandon"] if c.get("abandon") else "")))
     return bad
 
 
@@ -727,6 +743,17 @@ def fixed_real_cases():
     # a task fails while other tasks of the call are still running (8 s): the call must raise without waiting for them
     for backend, managed in (("loky", True), ("loky", False), ("multiprocessing", True), ("threading", True)):
         out.append(dict(base, backend=backend, n_jobs=3, N=6, tfail=[0], with_block=managed, slow=8.0, batch_size=1))
+    # outcomes that cannot be pickled back from a worker process: the call must still end (with some error) and heal
+    for backend in ("multiprocessing", "loky", "threading"):
+        for exc in ("UnpicklableExc", "UnpicklableRet"):
+            out.append(dict(base, backend=backend, n_jobs=2, exc=exc, with_block=(exc == "UnpicklableRet")))
+    # sized inputs (the number of tasks is known up front), the empty one included, with progress messages
+    ncpu = os.cpu_count() or 1
+    for backend, nj in (("sequential", 1), ("threading", 1), ("threading", 2), ("loky", 2), ("threading", -ncpu - 1), ("multiprocessing", -ncpu - 3)):
+        for N in (0, 1, 10):
+            for verbose in (1, 60):
+                out.append(dict(base, backend=backend, n_jobs=nj, N=N, tfail=[], sized=True, verbose=verbose,
+                                return_as="list" if backend == "multiprocessing" or verbose == 1 else "generator"))
     for backend, nj in (("sequential", 1), ("threading", 1), ("threading", 2), ("loky", 2)):
         for how, npull in (("close", 0), ("drop", 0), ("close", 2)):
             out.append(dict(base, backend=backend, n_jobs=nj, tfail=[], return_as="generator", abandon=[how, npull]))
@@ -735,7 +762,7 @@ def fixed_real_cases():
 
 def real_sampling(ctx, quick, prop, fail_rate):
     cases = real_cases(ctx.rng, 24 if quick else 200, fail_rate)
-    cases = [c for c in fixed_real_cases() if fail_rate >= 0.5 or c.get("abandon") or prop == "C01"] + cases
+    cases = [c for c in fixed_real_cases() if fail_rate >= 0.5 or c.get("abandon") or c.get("sized") or prop == "C01"] + cases
     chunks = [cases[i::8] for i in range(8)]
     from concurrent.futures import ThreadPoolExecutor
 
